@@ -42,7 +42,8 @@ func c13lease(cw *caseWriter, cfg []srv, ds []int, L time.Duration) {
 	if ni < raft.VerifMinCheckInterval {
 		ni = raft.VerifMinCheckInterval
 	}
-	b := func(d time.Duration) uint64 { return uint64((d + 10*time.Millisecond) / (20 * time.Millisecond)) }
+	// buckets of a tenth of the lease, rounded (contacts sit on multiples of it: +-L/20 of jitter is absorbed)
+	b := func(d time.Duration) uint64 { return uint64((d + L/20) / (L / 10)) }
 	cw.emit(cw.tag("l"), 13, in, []uint64{b2u(sd), b(md), b(ni)}, true)
 	if sd {
 		cw.stat("c13_stepdowns", 1)
@@ -51,7 +52,7 @@ func c13lease(cw *caseWriter, cfg []srv, ds []int, L time.Duration) {
 
 func runC13(cw *caseWriter, tier string, seed uint64) {
 	r := &rng{s: seed}
-	L := 200 * time.Millisecond
+	L := 2 * time.Second                       // long enough that scheduling jitter of a loaded machine (tens of ms) cannot move a bucket
 	grid := []int{0, 2, 4, 8, 12, 16, 30, 100} // tenths of the lease; never within 20% of the boundary
 	cfgs := [][]srv{
 		{{0, 1, 1}},
